@@ -358,10 +358,13 @@ TVecKeys ==
      IN  /\ NoDup(E.v) /\ NoDup(E.q)
          /\ V \cup Q \subseteq Wn \cup base
          /\ Wn \subseteq V \cup Q
-         /\ (tr /\ Wn # {}) => Wn \subseteq Q
-         /\ ~tr => (Q = {} /\ Wn \subseteq V)
-         /\ E.kind = "product" => Wn \subseteq V
-         /\ E.fixed = 0 => (E.trained = 1 <=> due)
+         /\ IF E.kind = "plain"
+            THEN \* no quantiser: full vectors only, nothing is ever trained
+                 Q = {} /\ Wn \subseteq V /\ E.trained = 0
+            ELSE /\ (tr /\ Wn # {}) => Wn \subseteq Q
+                 /\ ~tr => (Q = {} /\ Wn \subseteq V)
+                 /\ E.kind = "product" => Wn \subseteq V
+                 /\ E.fixed = 0 => (E.trained = 1 <=> due)
 
 \* Persisted state of a text index (read from its bucket): the recorded corpus size, the document entries and
 \* the term sets are exactly what the stored documents determine -- one entry (node, length, term frequencies)
